@@ -125,6 +125,9 @@ def a_configs(tier, seed):
     for kind in ("fifo-random", "hb-promotion"):
         out.append(dict(src="generic", max_states=1500 if tier == "quick" else 5000,
                         cfg=dict(kind=kind, seed=seed, R=3, W=2, T=5, F=1, mode="min", kw=dict(restrict=8))))
+        # ... and with initial points that are members of the list (fresh-process twins: always part of the children's set)
+        out.append(dict(src="generic", max_states=1500 if tier == "quick" else 5000, always_child=True,
+                        cfg=dict(kind=kind, seed=seed, R=3, W=2, T=6, F=1, mode="min", kw=dict(restrict=12, restrict_p2e=[5, 2]))))
     for kind in ["pbt", "dehb", "median", "rea", "fifo-random", "fifo-grid", "hb-rush-prom", "hb-cost", "fifo-bo"]:
         for W in (2, 3):
             if tier == "quick" and W == 3:
@@ -165,7 +168,9 @@ def child_traces(tier, seed):
             scheds.share(False)
         out["inproc:" + ctx_of(t) + ("/" + json.dumps(t["cfg"].get("kw"), sort_keys=True) if t["cfg"].get("kw") else "")] = \
             "same" if ta == tb else "differs: first instance " + ta[:300] + " ... instance created after an unrelated one " + tb[:300]
-    for t in a_configs(tier, seed)[:: (3 if tier == "quick" else 2)]:
+    allc = a_configs(tier, seed)
+    step = 3 if tier == "quick" else 2
+    for t in [c for i, c in enumerate(allc) if i % step == 0 or c.get("always_child")]:
         t = dict(t, max_states=400 if tier == "quick" else 4000)
         traces = []
 
@@ -173,7 +178,8 @@ def child_traces(tier, seed):
             traces.append(repr(w.trace))
             return None
         explore(lambda: build_world(t), PROP, {}, max_states=t["max_states"], on_state=on_state, exc_policy="ignore")
-        out[json.dumps({"src": t["src"], "ctx": ctx_of(t), "mode": t["cfg"].get("mode")}, sort_keys=True)] = \
+        out[json.dumps({"src": t["src"], "ctx": ctx_of(t), "mode": t["cfg"].get("mode"), "kw": t["cfg"].get("kw"),
+                        "n": len(out)}, sort_keys=True)] = \
             hashlib.sha1("\n".join(traces).encode()).hexdigest() + f":{len(traces)}"
     # simulated experiments (real time stubbed to 0), incl. a GP searcher with a fitted surrogate
     for kind, extra in (("fifo-random", {}), ("hb-promotion", {}), ("hb-stopping", {}), ("shb", {}), ("fifo-bo-fit", {})):
